@@ -285,6 +285,22 @@ def workdir(prop):
 
 
 def gen_cases(profile, seed, n, out, variants=None, stats=None, id0=1):
+    if profile == "enum":
+        # bounded-exhaustive: every start-rule body of at most 4 (5 when more than 120 000 cases are asked for) nodes x every
+        # input over {a,b} up to length 3; `n` selects a residue class of the enumeration (stride), the seed which one
+        tool = need_tool("pvenum")
+        size = "4" if n <= 120000 else "5"
+        rc, cnt, _ = run([tool, "-size", size, "-count"], check=True)
+        total = int(cnt.split("=")[1].split()[0])
+        stride = max(1, total // max(1, n))
+        cmd = [tool, "-size", size, "-stride", str(stride), "-offset", str(seed % stride), "-id0", str(id0)]
+        if variants:
+            cmd += ["-variants", ",".join(variants)]
+        with open(out, "wb") as fh:
+            p = subprocess.run(cmd, stdout=fh, stderr=subprocess.PIPE)
+        if p.returncode != 0:
+            raise RuntimeError("pvenum failed: " + p.stderr.decode()[-2000:])
+        return
     cmd = [os.path.join(BIN, "pvgen"), "-profile", profile, "-seed", str(seed), "-n", str(n), "-id0", str(id0)]
     if variants:
         cmd += ["-variants", ",".join(variants)]
